@@ -429,10 +429,14 @@ impl RainDbIterator for MergingIterator {
     }
 
     fn seek(&mut self, target: &Self::Key) -> Result<(), Self::Error> {
+        let mut maybe_seek_error: Option<RainDBError> = None;
         for index in 0..self.iterators.len() {
             let iter = &mut self.iterators[index];
             let seek_result = iter.seek(target);
             if let Err(error) = seek_result {
+                if maybe_seek_error.is_none() {
+                    maybe_seek_error = Some(error.clone());
+                }
                 self.save_error(index, error);
             }
         }
@@ -440,14 +444,23 @@ impl RainDbIterator for MergingIterator {
         self.find_smallest();
         self.direction = IterationDirection::Forward;
 
-        Ok(())
+        // A child iterator that could not be positioned has dropped out of the merge, so the
+        // entries it shadows would be served as if they were current. Report the failure.
+        match maybe_seek_error {
+            Some(error) => Err(error),
+            None => Ok(()),
+        }
     }
 
     fn seek_to_first(&mut self) -> Result<(), Self::Error> {
+        let mut maybe_seek_error: Option<RainDBError> = None;
         for index in 0..self.iterators.len() {
             let iter = &mut self.iterators[index];
             let seek_result = iter.seek_to_first();
             if let Err(error) = seek_result {
+                if maybe_seek_error.is_none() {
+                    maybe_seek_error = Some(error.clone());
+                }
                 self.save_error(index, error);
             }
         }
@@ -455,14 +468,23 @@ impl RainDbIterator for MergingIterator {
         self.find_smallest();
         self.direction = IterationDirection::Forward;
 
-        Ok(())
+        // A child iterator that could not be positioned has dropped out of the merge, so the
+        // entries it shadows would be served as if they were current. Report the failure.
+        match maybe_seek_error {
+            Some(error) => Err(error),
+            None => Ok(()),
+        }
     }
 
     fn seek_to_last(&mut self) -> Result<(), Self::Error> {
+        let mut maybe_seek_error: Option<RainDBError> = None;
         for index in 0..self.iterators.len() {
             let iter = &mut self.iterators[index];
             let seek_result = iter.seek_to_last();
             if let Err(error) = seek_result {
+                if maybe_seek_error.is_none() {
+                    maybe_seek_error = Some(error.clone());
+                }
                 self.save_error(index, error);
             }
         }
@@ -470,7 +492,12 @@ impl RainDbIterator for MergingIterator {
         self.find_largest();
         self.direction = IterationDirection::Backward;
 
-        Ok(())
+        // A child iterator that could not be positioned has dropped out of the merge, so the
+        // entries it shadows would be served as if they were current. Report the failure.
+        match maybe_seek_error {
+            Some(error) => Err(error),
+            None => Ok(()),
+        }
     }
 
     fn next(&mut self) -> Option<(&Self::Key, &Vec<u8>)> {
